@@ -671,6 +671,13 @@ def wave8_rules(ctx):
                 arm, _c = table["StaticMember"][0]
                 tests_int = any(x.get("k") in ("p_struct", "p_ts", "p_path") and x["segs"][-1] == "LitInt" for x in sir.walk(arm["body"]))
                 parens = any(x.get("k") == "lit" and x.get("v") == "(" for x in sir.walk(arm["body"]))
+                if not parens:
+                    # through a private helper that wraps its argument in parentheses
+                    for c_ in sir.walk(arm["body"]):
+                        if c_.get("k") == "call" and sir.call_name(c_) != prf.name:
+                            hs_ = [g_ for g_ in tc.fns if g_.name == sir.call_name(c_) and g_.body and "stringify" in g_.module]
+                            if len(hs_) == 1 and any(x.get("k") == "lit" and x.get("v") == "(" for x in sir.walk(hs_[0].body)) and any(x.get("k") == "lit" and x.get("v") == ")" for x in sir.walk(hs_[0].body)):
+                                parens = True
                 ok = tests_int and parens
                 obs.append(ob("C14.prec/printer/StaticMember/int-object", ok, ctx.where(prf), "an integer literal in front of `.name` is parenthesised: %s" % ok,
                               witness=None if ok else "{{ (1).a }} is printed as {{1.a}}, which does not read back"))
